@@ -98,15 +98,19 @@ func SupportsCertificate(acceptableCAs [][]byte, c *tls.Certificate) error {
 }
 
 type HandshakeConfig struct {
-	LocalPSKCallback              func([]byte) ([]byte, error)
-	LocalPSKIdentityHint          []byte
-	LocalCipherSuites             []CipherSuite
-	LocalSignatureSchemes         []signaturehash.Algorithm
-	LocalCertSignatureSchemes     []signaturehash.Algorithm
-	ExtendedMasterSecret          ExtendedMasterSecretType
-	LocalSRTPProtectionProfiles   []SRTPProtectionProfile
-	LocalSRTPMasterKeyIdentifier  []byte
-	ServerName                    string
+	LocalPSKCallback             func([]byte) ([]byte, error)
+	LocalPSKIdentityHint         []byte
+	LocalCipherSuites            []CipherSuite
+	LocalSignatureSchemes        []signaturehash.Algorithm
+	LocalCertSignatureSchemes    []signaturehash.Algorithm
+	ExtendedMasterSecret         ExtendedMasterSecretType
+	LocalSRTPProtectionProfiles  []SRTPProtectionProfile
+	LocalSRTPMasterKeyIdentifier []byte
+	ServerName                   string
+	// VerifyServerName is the name the server certificate is verified against.
+	// It is the configured server name even when ServerName (the SNI value) is
+	// empty because the name is an IP literal. Empty means: use ServerName.
+	VerifyServerName              string
 	SupportedProtocols            []string
 	ClientAuth                    ClientAuthType
 	LocalCertificates             []tls.Certificate
@@ -254,4 +258,13 @@ func (c *HandshakeConfig) GetClientCertificate(cri *CertificateRequestInfo) (*tl
 	}
 
 	return new(tls.Certificate), nil
+}
+
+// ServerNameForVerification returns the name the peer certificate must be valid for.
+func (c *HandshakeConfig) ServerNameForVerification() string {
+	if c.VerifyServerName != "" {
+		return c.VerifyServerName
+	}
+
+	return c.ServerName
 }
